@@ -154,7 +154,7 @@ def nested_objects(o, seen=None):
     if o.fields is None:
         return out
     for f in o.fields.values():
-        if isinstance(f, SObj) and f.fields is not None and id(f) not in seen:
+        if isinstance(f, SObj) and f.fields is not None and id(f) not in seen and not getattr(f, 'absent', False):
             seen.add(id(f))
             out.append(f)
             out += nested_objects(f, seen)
@@ -189,7 +189,10 @@ def normal_exit(run, fs, res, rep):
             cur = selfv.getfield(f)
             if cur is None:
                 # optional field of a union record that this class does not have: unconstrained
-                selfv.setfield(f, run.fresh(t, 'absent_' + f))
+                av = run.fresh(t, 'absent_' + f)
+                if isinstance(av, SObj):
+                    av.absent = True
+                selfv.setfield(f, av)
                 continue
             try:
                 tt = pack(cur, t) if not (isinstance(cur, SObj) and cur.fields is not None) else None
